@@ -11,15 +11,25 @@ result streams of query object `q`: everything ever sent on its channels, with t
 step at which it was sent; `q.closedAt` is the step at which the channels were closed.
 -/
 import SerfProofs.Lemmas.QueryRoute
+import SerfModel.Gen.QueryLocks
 namespace SerfProofs.C07
 open SerfModel SerfModel.QueryRoute SerfProofs.QueryRoute
 
-theorem inv_foldl (sched : List Action) : ∀ s, QueryRoute.Inv s → QueryRoute.Inv (sched.foldl act s) := by
+/-- **The lock shapes of the source** (regenerated from serf/query.go on every run): in `sendAck` and
+`sendResponse` the test of `closed` and the channel send sit in one closeLock critical section (Lock first,
+deferred Unlock, `if r.closed` inside, send inside, no call that re-locks), `Close` tests, sets `closed`
+and closes both channels under the same lock, `Finished` reads under it.  The atomic actions of the model
+are the code's critical sections only under these shapes; every theorem below assumes `sh.good`. -/
+theorem C07_lock_shapes : Gen.QueryLocks.shapes.good = true := by decide
+
+theorem inv_foldl (sh : Shapes) (hg : sh.good = true) (sched : List Action) :
+    ∀ s, QueryRoute.Inv s → QueryRoute.Inv (sched.foldl (act sh) s) := by
   induction sched with
   | nil => intro s h; exact h
-  | cons a as ih => intro s h; exact ih _ (inv_act s a h)
+  | cons a as ih => intro s h; exact ih _ (inv_act sh hg s a h)
 
-theorem inv_run (sched : List Action) : QueryRoute.Inv (run sched) := inv_foldl sched {} inv_init
+theorem inv_run (sh : Shapes) (hg : sh.good = true) (sched : List Action) : QueryRoute.Inv (run sh sched) :=
+  inv_foldl sh hg sched {} inv_init
 
 /-- **Routing.** After every schedule, for every query object:
 at most one ack and one response per sender; only replies carrying this query's
@@ -27,8 +37,8 @@ Lamport time and id, acks on the ack stream and responses on the response stream
 nothing was sent at or after the step at which the streams were closed; the streams
 were closed at most once, and exactly once if the query's timer has fired; no ack is
 ever delivered for a query that did not request acks. -/
-theorem C07_routing (sched : List Action) :
-    ∀ q ∈ (run sched).objs,
+theorem C07_routing (sh : Shapes) (hg : sh.good = true) (sched : List Action) :
+    ∀ q ∈ (run sh sched).objs,
       (q.ackLog.map (·.r.sender)).Nodup ∧ (q.respLog.map (·.r.sender)).Nodup ∧
       (∀ x ∈ q.ackLog ++ q.respLog, x.r.lt = q.lt ∧ x.r.id = q.id) ∧
       (∀ x ∈ q.ackLog, x.r.isAck = true) ∧ (∀ x ∈ q.respLog, x.r.isAck = false) ∧
@@ -37,7 +47,7 @@ theorem C07_routing (sched : List Action) :
       (q.closed = true ↔ q.closeCount = 1) ∧ (q.closed = true ↔ q.closedAt.isSome) ∧
       (q.ackWanted = false → q.ackLog = []) := by
   intro q hq
-  have h := (inv_run sched).objs q hq
+  have h := (inv_run sh hg sched).objs q hq
   refine ⟨by rw [← h.acks_eq]; exact h.acks_nodup, by rw [← h.resps_eq]; exact h.resps_nodup, ?_, ?_, ?_, ?_, ?_, ?_, ?_,
     h.closed_iff, h.ack_nil⟩
   · intro x hx
@@ -57,9 +67,9 @@ theorem C07_routing (sched : List Action) :
     cases q.closed <;> simp
 
 /-- The timer closure closes its query and deregisters its Lamport time, whatever else is going on. -/
-theorem C07_timeout_closes (s : Sys) (i : Nat) (q : QR) (hq : s.objs[i]? = some q) :
-    ∃ q', (act s (.timeout i)).objs[i]? = some q' ∧ q'.closed = true ∧ q'.timedOut = true ∧
-      alookup (act s (.timeout i)).map q.lt = none := by
+theorem C07_timeout_closes (sh : Shapes) (s : Sys) (i : Nat) (q : QR) (hq : s.objs[i]? = some q) :
+    ∃ q', (act sh s (.timeout i)).objs[i]? = some q' ∧ q'.closed = true ∧ q'.timedOut = true ∧
+      alookup (act sh s (.timeout i)).map q.lt = none := by
   simp only [act, hq]
   refine ⟨{ close s.now q with timedOut := true }, by rw [getElem?_modAt]; simp [hq], ?_, rfl,
     alookup_aerase_self _ _⟩
@@ -70,9 +80,9 @@ theorem C07_timeout_closes (s : Sys) (i : Nat) (q : QR) (hq : s.objs[i]? = some 
   · rfl
 
 /-- Once closed, a query's streams never change again — under any action. -/
-theorem C07_closed_is_final (s : Sys) (a : Action) (i : Nat) (q : QR)
+theorem C07_closed_is_final (sh : Shapes) (hg : sh.good = true) (s : Sys) (a : Action) (i : Nat) (q : QR)
     (hq : s.objs[i]? = some q) (hc : q.closed = true) :
-    ∃ q', (act s a).objs[i]? = some q' ∧ q'.ackLog = q.ackLog ∧ q'.respLog = q.respLog ∧ q'.closed = true ∧
+    ∃ q', (act sh s a).objs[i]? = some q' ∧ q'.ackLog = q.ackLog ∧ q'.respLog = q.respLog ∧ q'.closed = true ∧
       q'.closeCount = q.closeCount := by
   have hi : i < s.objs.length := (List.getElem?_eq_some_iff.mp hq).1
   cases a with
@@ -124,6 +134,7 @@ theorem C07_closed_is_final (s : Sys) (a : Action) (i : Nat) (q : QR)
             by_cases h4 : f.stage = 4
             · simp only [h4, if_true]; split <;> split <;> exact ⟨q, hq, rfl, rfl, hc, rfl⟩
             · simp only [h4, if_false]
+              rw [if_pos (sendAtomic_of_good hg f.r.isAck)]
               rw [getElem?_modAt]
               by_cases hj : i = f.ref
               · subst hj
@@ -158,8 +169,22 @@ private def sched1 : List Action :=
    .replyStep,                                                          -- … still sent to object 1 (it is open)
    .arrive ⟨7, 200, "d", false, 4⟩,                                      -- time 7 no longer registered: lost
    .timeout 1, .timeout 1]
-example : ((run sched1).objs.map fun q =>
+example : ((run Gen.QueryLocks.shapes sched1).objs.map fun q =>
     (q.respLog.map (·.r.sender), q.ackLog.map (·.r.sender), q.closeCount, q.closedAt)) =
     [([], [], 1, some 21), (["b"], ["c"], 1, some 24)] := by decide
+
+/-- Regression witness: the shape in which `sendResponse`/`sendAck` test through `Finished()` (its own
+critical section) and lock only afterwards.  `Close()` (the timer closure here) lands between the test and
+the send: the reply is sent at step 7 on streams closed at step 6 — `C07_routing` fails for this shape. -/
+def splitShapes : Shapes :=
+  { Gen.QueryLocks.shapes with
+    sendAck := { lockFirst := false, deferred := false, earlyUnlock := true, closedTestInside := false, sendInside := false, callsOwnMethods := true },
+    sendResponse := { lockFirst := false, deferred := false, earlyUnlock := true, closedTestInside := false, sendInside := false, callsOwnMethods := true } }
+
+theorem C07_split_send_counterexample :
+    splitShapes.good = false ∧
+    ((run splitShapes [.register 7 100 false 2, .arrive rA, .replyStep, .replyStep, .replyStep, .replyStep,
+        .timeout 0, .replyStep]).objs.map fun q => (q.respLog.map (·.time), q.closedAt)) = [([7], some 6)] := by
+  decide
 
 end SerfProofs.C07
